@@ -11,7 +11,7 @@ def gen_inputs(ctx):
     out = []
     sources = []
     for m in MNEMONICS[:2 if q else 3]:
-        for p in ["", "TREZOR", "1BvBMSEYstWetqTFn5Au4m4GFg7xJaNVN2", "bc1qw508d6qejxtdg4y5r3zarvary0c5xw7kv8f3t4", "correct horse battery staple", "pässwörd-ü"]:
+        for p in ["", "TREZOR", "1BvBMSEYstWetqTFn5Au4m4GFg7xJaNVN2", "bc1qw508d6qejxtdg4y5r3zarvary0c5xw7kv8f3t4", "correct horse battery staple", "pässwörd-ü", "1", "a", "0'", "m/", "bc1", "a.b", "q"]:
             sources.append({"mnemonic": T(m), "password": T(p)})
     for _ in range(3 if q else 40):
         sources.append({"seed": B(bytes(rng.randrange(256) for _ in range(rng.choice([16, 32, 64])))), "mnemonic": T(""), "password": T("")})
